@@ -42,7 +42,7 @@ PROPERTY = "C48"
 LEVEL = "exploration"
 ENGINE = "direct"
 TECHNIQUE = "real bash/dash execution of the exported strings in a stub jail (+strace sample), POSIX-quoting model, curl/httpie argv model, HTTP/1 reference parse"
-BUDGET = {"quick": (400, 17), "thorough": (40_000, 200)}
+BUDGET = {"quick": (400, 12), "thorough": (40_000, 200)}
 WORKERS = {"quick": 6, "thorough": 16}
 REQUIRED = ["shell_exec", "shell_model", "argv_semantics", "raw_parse_back"]
 RULE = (
